@@ -1,29 +1,182 @@
-import ScalesModel.Proofs.HeapFix
+import ScalesModel.Proofs.HeapStore
 import ScalesModel.Adapter.Heap
 
-/-! The system invariant of the heap balancer model and its preservation by every operation.
-    (Statements first; see Props/C03.lean and Props/C04.lean for what is derived from it.) -/
+/-! The system invariant of the heap balancer model.  (Preservation by every operation:
+    HeapOps.lean, HeapPut.lean, HeapGet.lean; what is derived from it: Props/C03.lean, Props/C04.lean.) -/
 namespace Scales.Heap
 
-/-- dispatches to node `id` that have not completed -/
-def outOf (s : HS) (id : Nat) : Nat :=
-  (s.reqs.filter (fun r => decide (r.1 = id) && !r.2)).length
+/-- number of dispatch records for node `id` that have not completed -/
+def outL (reqs : List (Nat × Bool)) (id : Nat) : Nat :=
+  (reqs.filter (fun r => decide (r.1 = id) && !r.2)).length
 
-structure Inv (s : HS) : Prop where
-  wf : WF s
-  ord : Ord (L s) s.size
+/-- dispatches to node `id` that have not completed -/
+def outOf (s : HS) (id : Nat) : Nat := outL s.reqs id
+
+/-- fewer than 2^31−1 dispatches: a load ≥ 0 then always means "marked down" -/
+def maxReqs : Nat := 2147483647
+
+/-- the bookkeeping part of the invariant; it does not depend on how the heap is arranged nor on
+    the down list -/
+structure Book (s : HS) : Prop where
   /-- load = outstanding, measured from Idle (healthy) or from 0 (marked down) -/
   acct : ∀ id, id < s.nodes.length →
     (s.node id).load = (outOf s id : Int) ∨ (s.node id).load = Idle + (outOf s id : Int)
-  downPen : ∀ id ∈ s.down, id < s.nodes.length ∧ (s.node id).load ≥ 0
-  downAll : ∀ id, InHeap s id → (s.node id).load ≥ 0 → id ∈ s.down
-  downNodup : s.down.Nodup
+  bound : s.reqs.length < maxReqs
   reqsOk : ∀ r ∈ s.reqs, r.1 < s.nodes.length
   closedIn : ∀ id, InHeap s id → (s.node id).closed = 0
   closedOff : ∀ id, id < s.nodes.length → ¬ InHeap s id →
     (s.node id).closed = (if outOf s id = 0 ∨ (s.node id).load ≥ 0 then 1 else 0)
-  /-- membership (base.py `_servers`) and the heap hold the same endpoints, once each -/
+  /-- the heap holds each endpoint once -/
   epsInj : ∀ a b, InHeap s a → InHeap s b → (s.node a).ep = (s.node b).ep → a = b
-  epsServers : ∀ ep, ep ∈ s.servers ↔ ∃ id, InHeap s id ∧ (s.node id).ep = ep
+
+/-- membership (base.py `_servers`) and the heap hold the same endpoints -/
+def SrvOk (s : HS) : Prop := ∀ ep, ep ∈ s.servers ↔ ∃ id, InHeap s id ∧ (s.node id).ep = ep
+
+/-- the down list `d` is exactly right for state `s` -/
+structure DownOk (s : HS) (d : List Nat) : Prop where
+  pen : ∀ id ∈ d, id < s.nodes.length ∧ (s.node id).load ≥ 0
+  all : ∀ id, InHeap s id → (s.node id).load ≥ 0 → id ∈ d
+  nodup : d.Nodup
+
+structure Inv (s : HS) : Prop where
+  wf : WF s
+  ord : Ord (L s) s.size
+  book : Book s
+  down : DownOk s s.down
+  srv : SrvOk s
+
+theorem Inv.acct {s : HS} (h : Inv s) : ∀ id, id < s.nodes.length →
+    (s.node id).load = (outOf s id : Int) ∨ (s.node id).load = Idle + (outOf s id : Int) := h.book.acct
+
+/-! ### counting outstanding dispatches -/
+
+theorem outL_le (reqs : List (Nat × Bool)) (id : Nat) : outL reqs id ≤ reqs.length :=
+  List.length_filter_le _ _
+
+theorem outL_append (reqs : List (Nat × Bool)) (nid id : Nat) :
+    outL (reqs ++ [(nid, false)]) id = outL reqs id + (if nid = id then 1 else 0) := by
+  unfold outL
+  rw [List.filter_append, List.length_append]
+  by_cases h : nid = id <;> simp [h]
+
+theorem outL_set (reqs : List (Nat × Bool)) (r nid id : Nat) (h : reqs[r]? = some (nid, false)) :
+    outL (reqs.set r (nid, true)) id + (if nid = id then 1 else 0) = outL reqs id := by
+  unfold outL
+  induction reqs generalizing r with
+  | nil => simp at h
+  | cons x xs ih =>
+    cases r with
+    | zero =>
+      simp only [List.getElem?_cons_zero, Option.some.injEq] at h
+      subst h
+      by_cases e : nid = id <;> simp [e, List.filter_cons]
+    | succ r =>
+      simp only [List.getElem?_cons_succ] at h
+      have := ih r h
+      simp only [List.set_cons_succ, List.filter_cons]
+      split <;> (try simp only [List.length_cons]) <;> omega
+
+theorem outL_set_done (reqs : List (Nat × Bool)) (r nid id : Nat) (h : reqs[r]? = some (nid, true)) :
+    outL (reqs.set r (nid, true)) id = outL reqs id := by
+  have : reqs.set r (nid, true) = reqs := by
+    apply List.ext_getElem?
+    intro k
+    rw [List.getElem?_set]
+    split
+    · rename_i e; subst e
+      split
+      · exact h.symm
+      · rename_i hl; rw [List.getElem?_eq_none (by omega)]
+    · rfl
+  rw [this]
+
+/-! ### the consequences of the bound -/
+
+theorem Book.out_lt {s : HS} (b : Book s) (id : Nat) : (outOf s id : Int) < 2147483647 := by
+  have := outL_le s.reqs id
+  have := b.bound
+  unfold maxReqs at this
+  unfold outOf
+  omega
+
+/-- under the bound, "load ≥ 0" is exactly "accounted from 0" -/
+theorem Book.pen_iff {s : HS} (b : Book s) (id : Nat) (hl : id < s.nodes.length) :
+    ((s.node id).load ≥ 0 ↔ (s.node id).load = (outOf s id : Int)) ∧
+    ((s.node id).load < 0 ↔ (s.node id).load = Idle + (outOf s id : Int)) ∧
+    Idle ≤ (s.node id).load ∧ (s.node id).load < Penalty := by
+  have h1 := b.out_lt id
+  have h2 := b.acct id hl
+  unfold Idle Penalty at *
+  omega
+
+/-! ### transfer along a frame -/
+
+/-- what the bookkeeping needs from a frame (channel states are irrelevant to it) -/
+structure FrameW (s s' : HS) : Prop where
+  size : s'.size = s.size
+  len : s'.nodes.length = s.nodes.length
+  fields : ∀ id, (s'.node id).load = (s.node id).load ∧ (s'.node id).ep = (s.node id).ep ∧
+    (s'.node id).closed = (s.node id).closed
+  inHeap : ∀ id, InHeap s' id ↔ InHeap s id
+  down : s'.down = s.down
+  reqs : s'.reqs = s.reqs
+  servers : s'.servers = s.servers
+
+theorem Frame.toW {s s' : HS} (f : Frame s s') : FrameW s s' :=
+  ⟨f.size, f.len, fun id => ⟨(f.fields id).1, (f.fields id).2.1, (f.fields id).2.2.2⟩, f.inHeap, f.down, f.reqs,
+    f.servers⟩
+
+theorem FrameW.outOf {s s' : HS} (f : FrameW s s') (id : Nat) : outOf s' id = outOf s id := by
+  unfold Scales.Heap.outOf; rw [f.reqs]
+
+theorem Frame.outOf {s s' : HS} (f : Frame s s') (id : Nat) : outOf s' id = outOf s id := f.toW.outOf id
+
+theorem Book.frameW {s s' : HS} (b : Book s) (f : FrameW s s') : Book s' := by
+  constructor
+  · intro id hl
+    rw [(f.fields id).1, f.outOf]
+    exact b.acct id (by rw [← f.len]; exact hl)
+  · rw [f.reqs]; exact b.bound
+  · intro r hr
+    rw [f.reqs] at hr; rw [f.len]; exact b.reqsOk r hr
+  · intro id h
+    rw [(f.fields id).2.2]
+    exact b.closedIn id ((f.inHeap id).mp h)
+  · intro id hl hn
+    rw [(f.fields id).2.2, (f.fields id).1, f.outOf]
+    exact b.closedOff id (by rw [← f.len]; exact hl) (fun h => hn ((f.inHeap id).mpr h))
+  · intro a c ha hc he
+    rw [(f.fields a).2.1, (f.fields c).2.1] at he
+    exact b.epsInj a c ((f.inHeap a).mp ha) ((f.inHeap c).mp hc) he
+
+theorem SrvOk.frameW {s s' : HS} (b : SrvOk s) (f : FrameW s s') : SrvOk s' := by
+  intro ep
+  rw [f.servers, b ep]
+  constructor
+  · rintro ⟨id, h1, h2⟩
+    exact ⟨id, (f.inHeap id).mpr h1, by rw [(f.fields id).2.1]; exact h2⟩
+  · rintro ⟨id, h1, h2⟩
+    exact ⟨id, (f.inHeap id).mp h1, by rw [← (f.fields id).2.1]; exact h2⟩
+
+theorem DownOk.frameW {s s' : HS} {d : List Nat} (b : DownOk s d) (f : FrameW s s') : DownOk s' d := by
+  constructor
+  · intro id hd
+    rw [(f.fields id).1, f.len]
+    exact b.pen id hd
+  · intro id h hl
+    rw [(f.fields id).1] at hl
+    exact b.all id ((f.inHeap id).mp h) hl
+  · exact b.nodup
+
+theorem Book.frame {s s' : HS} (b : Book s) (f : Frame s s') : Book s' := b.frameW f.toW
+theorem SrvOk.frame {s s' : HS} (b : SrvOk s) (f : Frame s s') : SrvOk s' := b.frameW f.toW
+theorem DownOk.frame {s s' : HS} {d : List Nat} (b : DownOk s d) (f : Frame s s') : DownOk s' d := b.frameW f.toW
+
+/-- a rearrangement of the heap that restores the order keeps the invariant -/
+theorem Inv.frameW {s s' : HS} (h : Inv s) (f : FrameW s s') (hw : WF s') (ho : Ord (L s') s'.size) : Inv s' :=
+  ⟨hw, ho, h.book.frameW f, by rw [f.down]; exact h.down.frameW f, h.srv.frameW f⟩
+
+theorem Inv.frame {s s' : HS} (h : Inv s) (f : Frame s s') (hw : WF s') (ho : Ord (L s') s'.size) : Inv s' :=
+  h.frameW f.toW hw ho
 
 end Scales.Heap
